@@ -492,6 +492,21 @@ func runRound(e *hk.Env, seed uint64, n int, rnd *hk.Rng) {
 	if v := rd.viol.Load(); v > 0 {
 		e.Count("violations", int(v))
 	}
+	if n < 3 {
+		lk := 0
+		for _, st := range rstats {
+			lk += st.lookups
+		}
+		e.Sample("samples", map[string]any{"round": n, "prefilled_slots": nPre, "writers": nW, "readers": nR, "toggles_zero": rd.toggles,
+			"concurrent_updates": nops + len(rd.toggler), "lookups": lk, "valid_adds_total": rd.done.Load(),
+			"writer0_program": func() string {
+				var t []string
+				for k := range rd.writers[0] {
+					t = append(t, rd.writers[0][k].token())
+				}
+				return strings.Join(t, " ")
+			}()}, 3)
+	}
 }
 
 func child(e *hk.Env) error {
